@@ -18,7 +18,8 @@ from lib import e5ref, stuck, vtime, wire
 PROPERTY = "C07"
 LEVEL = "exploration"
 RULE = ("random histories (<= 14 events, thorough <= 40) for host and equipment roles, passive and active link, with "
-        "on_commack_requested returning 0 or 1; distinct by (role, commack policy, event sequence); non-trivial when at "
+        "on_commack_requested returning 0 or 1 (events: link up/down, S1F13/S1F14 with COMMACK 0/1/other, matching / stale / foreign "
+        "system bytes, other messages, T3 and delay expiry - the oldest armed timer first, as real time would -, disable/enable); distinct by (role, commack policy, event sequence); non-trivial when at "
         "least one S1F13/S1F14 was exchanged")
 ASSUMPTIONS = ["what the handler answers to S1F13 received while waiting for the delay is not constrained by the statement",
                "an S1F14 with COMMACK=0 completes an attempt if its system bytes belong to any S1F13 sent on the current link "
